@@ -9,10 +9,12 @@ PROP = dict(
                     "strings (the five ctest ones, layout::file_format, further delimiter sets of the four families, PRNG-built) x name "
                     "flag sets, driven through mpt_parse_config, the example's direct loop and mpt_parse_node into a populated root "
                     "(fresh and re-used parser context); 60k / 600k of the same cases through the C++ config_parser::set_format / "
-                    "parser::read with one parser object used for several reads.  Exploration, not proof."),
+                    "parser::read with one parser object used for several reads, and through mpt_parse_config with a handler that keeps "
+                    "mpt::path copies (shared buffer) of 2/5 of the events and re-verifies all of them at every later event and after "
+                    "the parse.  Exploration, not proof."),
         level_note=("trusts the stack model of open sections and the tree serialisers in harness/c08_parse.c / c08_cxx.cpp, gcc ASan/UBSan/LSan "
                     "(LSan scans conservatively; non-adjacent stray writes are not seen)"),
-        legs=[dict(name="c08_fuzz", kind="fuzz", src=["c08_fuzz.c", "c08_gen.c"], libs=["mptcore"], runs={"thorough": 150000}, max_len=1500,
+        legs=[dict(name="c08_fuzz", kind="fuzz", src=["c08_fuzz.c", "c08_gen.c", "c08_rec.c"], libs=["mptcore"], runs={"thorough": 150000}, max_len=1500,
                corpus="corpus/c08", floors={"fuzz:documents": 1000000, "mpt_parse_config": 500000}),
           dict(name="c08_parse", memcheck=1500, src=["c08_parse.c", "c08_gen.c", "c08_rec.c"], libs=["mptcore"], batch=256, lsan=True,
                    floors={"mpt_parse_config": 200000, "mpt_parse_node": 120000, "direct-loop": 40000,
@@ -27,7 +29,10 @@ PROP = dict(
               dict(name="c08_cxx", memcheck=500, src=["c08_cxx.cpp", "c08_gen.c", "c08_rec.c"], libs=["mpt++", "mptio", "mptplot", "mptcore"], batch=256, lsan=True,
                    floors={"parser::read": 60000, "config_parser::set_format": 60000, "set_format:refused": 200,
                            "outcome:accepted": 15000, "outcome:rejected": 25000,
-                           "monitor:snapshot-compared-nonempty": 15000, "monitor:result-nodes-read": 50000})],
+                           "monitor:snapshot-compared-nonempty": 15000, "monitor:result-nodes-read": 50000,
+                           "mpt_parse_config": 50000, "events:path-retained": 40000, "monitor:retained-path-verifications": 250000,
+                           "retained:section": 8000, "retained:sectend": 4000, "retained:option": 15000, "retained:data": 5000,
+                           "state:parse-with-2+-retained-paths": 8000, "monitor:nesting-verdicts": 12000})],
         rule=("case = (format string, section/option name flag sets, document bytes, getc error position or none, index of a refused "
               "save event or none, drivers run); non-trivial = mpt_parse_config delivered at least two events for the document, or "
               "rejected it after at least 8 getc calls (C++ leg: a read made at least 8 getc calls); distinct = 64-bit hash of "
@@ -40,5 +45,7 @@ PROP = dict(
             "flat families (' ' separated, 'x' with identical start/end character) leave the last section open at end of input",
             "whether a getc error (-1) must make the parse fail is not asserted (counted as outcome:input-error-not-reported)",
             "merge result of a successful mpt_parse_node into a populated root is only walked, not compared",
-            "a parser context / mpt::parser object may be used for a further parse after a failed one (mpt::layout does)"],
+            "a parser context / mpt::parser object may be used for a further parse after a failed one (mpt::layout does)",
+            "a path handler may keep a copy of the event path (mpt::path copy constructor, shares the character buffer); path bytes "
+            "and the value bytes behind them must stay what the handler saw until the copy is released"],
     )
